@@ -53,6 +53,10 @@ class Array(Base):
             self._unit = units(unit)
         if not isinstance(self._array, np.ndarray):
             self._array = np.asarray(self._array)
+            if self._array.dtype.kind == "O" and isinstance(values, int):
+                # A Python integer beyond 64 bits is the number it stands for
+                # (numpy makes an object array of it, which has no unit rules)
+                self._array = np.asarray(float(values))
 
         self.name = name
 
